@@ -634,3 +634,44 @@ Proof.
   destruct (slow_hash_cases (trunc_passwd owner) (skipn 8 osalt) (uh ++ usalt)) as (ok & -> & _). cbn [bind].
   eauto.
 Qed.
+
+(* ---- candidates of every kind, including those the preparation is not defined on ------------------------ *)
+
+Lemma open_prep_some h supplied p : open_handler_prep h supplied (Some p) = open_handler h supplied p.
+Proof. reflexivity. Qed.
+
+Lemma open_prep_none h c : authenticate h [] = Err c -> open_handler_prep h true None = Err Auth.
+Proof. intros E. unfold open_handler_prep. now rewrite E. Qed.
+
+(* R2-R4: [prep] is the (partial) PDFDocEncoding of an arbitrary candidate string *)
+Lemma wrong_password_rejected_legacy_l R id user owner perm kb pm (prep : option bytes) c : legacy_R R ->
+  let h := fst (create_legacy R id user owner perm kb pm) in
+  let uval q := u_cmp R (compute_U R id (file_key h q)) in
+  authenticate h [] = Err c ->        (* the user password is not empty after preparation *)
+  (forall p, prep = Some p ->
+     (forall q, q = pad_passwd p \/ q = recover_user h (pad_passwd p) -> uval q = uval (pad_passwd user) -> q = pad_passwd user) /\
+     (recover_user h (pad_passwd p) = pad_passwd user -> pad_passwd p = pad_passwd owner) /\
+     pad_passwd p <> pad_passwd user /\ pad_passwd p <> pad_passwd owner) ->
+  open_handler_prep h true prep = Err Auth.
+Proof.
+  intros HR h uval E H. unfold open_handler_prep. rewrite E. destruct prep as [p|]; [|reflexivity].
+  destruct (H p eq_refl) as (A & B & C & D). cbn [authenticate_prep].
+  exact (wrong_pw_legacy_l R id user owner perm kb pm p HR A B C D).
+Qed.
+
+(* R6: [prep] is the (partial) SASLprep of an arbitrary candidate string *)
+Lemma wrong_password_rejected_r6_l id user owner perm pm fkey usalt osalt fill h (prep : option bytes) c :
+  create6 id user owner perm pm fkey usalt osalt fill = Ok (h, fkey) ->
+  authenticate h [] = Err c ->
+  (forall p, prep = Some p ->
+     (forall x, slow_hash (trunc_passwd p) (slice 32 40 (hU h)) [] = Ok x -> bytes_eqb x (firstn 32 (hU h)) = true ->
+                trunc_passwd p = trunc_passwd user) /\
+     (forall x, slow_hash (trunc_passwd p) (slice 32 40 (hO h)) (hU h) = Ok x -> bytes_eqb x (firstn 32 (hO h)) = true ->
+                trunc_passwd p = trunc_passwd owner) /\
+     trunc_passwd p <> trunc_passwd user /\ trunc_passwd p <> trunc_passwd owner) ->
+  open_handler_prep h true prep = Err Auth.
+Proof.
+  intros Hc E H. unfold open_handler_prep. rewrite E. destruct prep as [p|]; [|reflexivity].
+  destruct (H p eq_refl) as (A & B & C & D). cbn [authenticate_prep].
+  exact (authenticate6_wrong id user owner perm pm fkey usalt osalt fill h Hc p A B C D).
+Qed.
